@@ -8,6 +8,16 @@ from fractions import Fraction
 import math
 
 
+def nonfinite(d, name):
+    """first non-finite entry of a dict/list of floats or complex numbers, as a message; None if all finite"""
+    it = d.items() if isinstance(d, dict) else enumerate(d)
+    for k, v in it:
+        z = v if isinstance(v, complex) else complex(v, 0.0)
+        if not (math.isfinite(z.real) and math.isfinite(z.imag)):
+            return "%s%s = %r is not finite" % (name, list(k) if isinstance(k, tuple) else [k], v)
+    return None
+
+
 def to_scaled_ints(vals):
     """vals: list of python floats -> (ints, e) with vals[i] == ints[i] * 2**e exactly"""
     if not vals:
@@ -22,6 +32,9 @@ def check_lu(n, A, perm_r, perm_c, L, U, unit_pow, k_gamma=None, thresh_u=1.0, m
     """A: dict (i,j)->float (original numbering). L,U: dict (i,j)->float in pivoted numbering.
     unit roundoff u = 2**-unit_pow.  Returns None if all certificates hold, else a description."""
     k = k_gamma if k_gamma is not None else n
+    bad = nonfinite(L, "L") or nonfinite(U, "U")
+    if bad:
+        return bad
     # structure
     for (i, j), v in L.items():
         if i < j:
@@ -87,6 +100,9 @@ def check_lu(n, A, perm_r, perm_c, L, U, unit_pow, k_gamma=None, thresh_u=1.0, m
 def check_solve(n, A, perm_r, perm_c, L, U, Bv, Xv, unit_pow, k_gamma=None):
     """|b - A x| <= gamma(3n) * (Pr^T |L||U| Pc^T) |x|  componentwise, exact.  Bv, Xv: lists of columns (lists of floats)."""
     k = k_gamma if k_gamma is not None else 3 * n
+    bad = nonfinite(L, "L") or nonfinite(U, "U") or next((m for m in (nonfinite(x, "X") for x in Xv) if m), None)
+    if bad:
+        return bad
     P2 = 1 << unit_pow
     lk, lv = list(L.keys()), list(L.values())
     uk, uv = list(U.keys()), list(U.values())
@@ -157,6 +173,9 @@ def _c(z):
 
 
 def check_lu_frac(n, A, perm_r, perm_c, L, U, unit_pow, k_gamma, transpose=False):
+    bad = nonfinite(L, "L") or nonfinite(U, "U")
+    if bad:
+        return bad
     u = Fraction(1, 1 << unit_pow)
     g = k_gamma * u / (1 - k_gamma * u)
     Lrow = {}
@@ -187,6 +206,9 @@ def check_lu_frac(n, A, perm_r, perm_c, L, U, unit_pow, k_gamma, transpose=False
 
 def check_solve_frac(n, A, perm_r, perm_c, L, U, Bv, Xv, unit_pow, k_gamma, transposed=False):
     """|b - op(A) x| <= gamma(k) * (M |x|), M = Pr^T |L||U| Pc^T (or its transpose when the factors are those of A^T)"""
+    bad = nonfinite(L, "L") or nonfinite(U, "U") or next((m for m in (nonfinite(x, "X") for x in Xv) if m), None)
+    if bad:
+        return bad
     u = Fraction(1, 1 << unit_pow)
     g = k_gamma * u / (1 - k_gamma * u)
     inv_r = {perm_r[i]: i for i in range(n)}
